@@ -80,20 +80,34 @@ def judge_accept(r):
     return None
 
 
+FILE_LINE = re.compile(r'^"([^"\n]+)", line (\d+): ', re.M)
+
+
+def error_positions(out):
+    """(file, line, column) of every (Error): the file is the one named by the source-line echo
+    that precedes the message (`"p.as", line 20: ...`), None if there is no echo."""
+    res = []
+    for m in ERR_POS.finditer(out):
+        f = None
+        for fm in FILE_LINE.finditer(out, 0, m.start()):
+            f = os.path.basename(fm.group(1))
+        res.append((f, int(m.group(1)), int(m.group(2))))
+    return res
+
+
 def judge_reject(r, ranges):
     """None when the compiler rejected the program as the property demands, else the violation class."""
     if r["rc"] == 124:
         return "timeout"
     left = [f for f in r["files"] if f.rsplit(".", 1)[-1] in ("ao", "c", "fm", "o", "h")]
-    pos = [(int(l), int(c)) for l, c in ERR_POS.findall(r["out"])]
+    allpos = error_positions(r["out"])
+    pos = [(l, c) for f, l, c in allpos if f in (None, "p.as")]
     if r["rc"] == 0:
         return "error-message-with-exit-0" if ERR_ANY.search(r["out"]) else "ill-typed-accepted"
-    if r["rc"] < 0 or CRASH.search(r["out"]):
-        return "compiler-crash"
-    if not ERR_ANY.search(r["out"]):
-        return "nonzero-exit-without-error"
-    if not pos or all(l <= 0 for l, c in pos):
-        return "error-without-position"
+    if not allpos or all(l <= 0 for f, l, c in allpos):
+        if r["rc"] < 0 or CRASH.search(r["out"]):
+            return "compiler-crash-without-positioned-error"
+        return "error-without-position" if ERR_ANY.search(r["out"]) else "nonzero-exit-without-error"
     if not any(lo <= l <= hi for l, c in pos for lo, hi in ranges):
         return "error-position-outside-fault"
     if left:
@@ -101,15 +115,50 @@ def judge_reject(r, ranges):
     return None
 
 
+MACRO_LINE = re.compile(r"^(?:macro\s+\w+\(|\w+\([a-z, ]*\)\s*==>)")
+
+
 def mutant_ranges(x):
     """Line ranges in which an error for this mutant may be reported: the form holding the
-    fault; for ambiguous-overload also the use appended as the last form of the file (the
-    second definition alone is legal Aldor: the error belongs to the call that cannot choose)."""
+    fault.  ambiguous-overload: the second definition alone is legal Aldor (overloading on
+    the result type); the fault is the pair, and the errors belong to the uses that can no
+    longer choose -- the appended use (last line) and every other line that applies the
+    name.  A fault inside a macro argument is reported "(After Macro Expansion)" at the
+    macro's body in the header: those lines count when the faulty form applies a macro."""
     rs = [(x["line_lo"], x["line_hi"])]
+    lines = x["src"].splitlines()
     if x["kind"] == "ambiguous-overload":
-        n = x["src"].rstrip("\n").count("\n") + 1
-        rs.append((n, n))
+        m = re.match(r"(f\d+)\(", x["bad_form"])
+        if m:
+            rs += [(i, i) for i, l in enumerate(lines, 1) if re.search(r"\b%s\(" % m.group(1), l)]
+        rs.append((len(lines), len(lines)))
+    if re.search(r"\b(?:DBL|SQR)\(", x["bad_form"]):
+        rs += [(i, i) for i, l in enumerate(lines[:40], 1) if MACRO_LINE.match(l)]
     return rs
+
+
+def crashed(r):
+    return r["rc"] < 0 or bool(CRASH.search(r["out"]))
+
+
+INT_LIT = re.compile(r"\(7@(?:Integer|BI)\)|\bbi\(7\)")
+
+
+def oracle_gap(x, cls):
+    """Known incompleteness of the ORACLE (not of the compiler): libaldor's IntegerType exports
+    `mod: (%, MachineInteger) -> MachineInteger` (sal_intcat.as:99) while Types.v gives `mod` the one
+    signature (n, n) -> n.  A wrong-argument-type mutant that makes the left operand of a `mod` an
+    Integer is therefore legal Aldor although the model calls it ill typed.  Reported to b-c01."""
+    return (cls == "ill-typed-accepted" and x["kind"] == "wrong-argument-type"
+            and " mod " in x["bad_form"] and INT_LIT.search(x["bad_form"]) is not None)
+
+
+def class_key(x, cls, r):
+    """Findings that are one defect with many instances get one key (else: shape_key)."""
+    if (cls == "error-position-outside-fault" and "failed to satisfy the condition that" in r["out"]
+            and re.match(r"(?:if|while|for)\b", x["bad_form"]) and "@" in x["bad_form"]):
+        return "C06 misplaced-error:embedded-satisfaction-message:toplevel-if-with-qualified-expr"
+    return None
 
 
 # ------------------------------------------------------------------ text-level forms (shrinking)
@@ -454,7 +503,7 @@ def run(rep, tier):
 
     # ---- 2. generated family and its mutants
     n_prog = 80 if quick else 100000
-    per_kind = 4 if quick else 100000
+    per_kind = 6 if quick else 100000
     budget = 150 if quick else 20 * 60
     sizes = SIZES_QUICK if quick else SIZES_THOROUGH
     t_start = time.time()
@@ -467,6 +516,7 @@ def run(rep, tier):
     progs_done = 0
     chunk = 16 if quick else 32
     failures = []      # (cls, prog m, mutant x or None, r)
+    crash_samples = []
     while progs_done < n_prog and time.time() - t_start < budget:
         jobs = [(rng.randrange(1, 2 ** 40), rng.choice(sizes)) for _ in range(min(chunk, n_prog - progs_done))]
         ms = mini.batch(["mutants %d %d %d" % (s, z, per_kind) for s, z in jobs])
@@ -496,6 +546,14 @@ def run(rep, tier):
                 else:
                     cls = judge_reject(r, mutant_ranges(x))
                     sites_run[x["kind"]] += 1
+                    if cls is None and crashed(r):
+                        st["mutant-rejected-then-compiler-crashed"] += 1
+                        if len(crash_samples) < 3:
+                            crash_samples.append({"seed": m["seed"], "size": m["size"], "kind": x["kind"], "site": x["site"],
+                                                  "bad_form": x["bad_form"], "out": r["out"][:600]})
+                    if cls and oracle_gap(x, cls):
+                        st["oracle-gap:Integer-mod-MachineInteger"] += 1
+                        cls = None
                     st["mutant-rejected" if cls is None else "mutant:" + cls] += 1
                     kinds[(x["kind"], "ok" if cls is None else cls)] += 1
                 if cls:
@@ -533,7 +591,7 @@ def run(rep, tier):
                          shape_key("base", cls, ERR_ANY.split(r["out"])[-1][:120] if ERR_ANY.search(r["out"]) else "")))
             continue
         src, ranges = x["src"], mutant_ranges(x)
-        key = shape_key(x["kind"], cls, x["bad_form"])
+        key = class_key(x, cls, r) or shape_key(x["kind"], cls, x["bad_form"])
         if key in seen_keys and len(viol) > 40:
             continue
         if shrunk < 3 and key not in seen_keys:
@@ -557,6 +615,9 @@ def run(rep, tier):
                                                          "site": x["site"], "bad_form": x["bad_form"]}), key))
     for what, obj, key in viol:
         rep.violation(what, obj, key=key)
+    if crash_samples:
+        rep.notes.append("compiler crashed AFTER rejecting a mutant as the property demands (positioned error, exit != 0, no "
+                         "output): not a C06 violation, belongs to C07; samples: %s" % json.dumps(crash_samples)[:1500])
 
     # ---- 4. evidence
     n_mut = sum(sites_run.values())
@@ -591,7 +652,7 @@ def run(rep, tier):
         "or in the second definition",
         "programs are compiled against the PRE-BUILT libaldor (.al) of /repo; the compiler itself is built from the current tree",
         "quick tier plants at most %d evenly spread eligible sites per kind and program; the thorough tier plants every "
-        "eligible site of every program it reaches within its time budget" % 4,
+        "eligible site of every program it reaches within its time budget" % 6,
         "Coq extraction (ExtrOcamlBasic only), OCaml and Print.v (renderer) / Tool.v (line ranges) are trusted",
     )
 
